@@ -44,6 +44,7 @@ type concState struct {
 	valLen   map[uint32]int
 	journals map[int64][]byte // journal bytes captured before removal
 	closedAt int64
+	readOnly bool // some client has switched the DB to read-only
 }
 
 func (r *runner) tick() int64 {
@@ -192,7 +193,7 @@ func (r *runner) clientConc(ci int, ops []Op) {
 			if err != nil {
 				h.failed = true
 				h.closed = err == leveldb.ErrClosed
-				if !h.closed && !r.faulty {
+				if !h.closed && !r.faulty && !(r.cs.readOnly && err == leveldb.ErrReadOnly) {
 					r.viol("write-err", "write-err:"+errClass(err), fmt.Sprintf("client %d: %s returned %v in a fault-free run", ci, op.K, err))
 				}
 			}
@@ -336,6 +337,14 @@ func (r *runner) clientConc(ci int, ops []Op) {
 				tr.Discard()
 			}
 			r.end(h)
+		case "setro":
+			simrt.SetOp("SetReadOnly")
+			if err := db.SetReadOnly(); err == nil {
+				r.cs.readOnly = true
+				r.probe("setro-among-writers")
+			}
+			simrt.SetOp("")
+			simrt.Progress()
 		case "compact":
 			simrt.SetOp("CompactRange")
 			db.CompactRange(rangeOfOp(op))
@@ -1373,6 +1382,22 @@ func genConc(prop string, seed uint64, g *gen, thorough bool) *Case {
 			ops = append(ops[:at], Op{K: "close"})
 		}
 		c.Clients = append(c.Clients, ops)
+	}
+	if (prop == "C10" || prop == "C09") && closer < 0 && r.p(0.15) {
+		// the DB enters its persistent error state in the middle of the
+		// writer protocol: one client switches it to read-only, half of the
+		// time while a flush is failing and being retried
+		ci := r.intn(len(c.Clients))
+		at := r.intn(len(c.Clients[ci]) + 1)
+		c.Clients[ci] = append(c.Clients[ci][:at:at], append([]Op{{K: "setro"}}, c.Clients[ci][at:]...)...)
+		if r.p(0.5) {
+			for i := r.rng(1, 2); i > 0; i-- {
+				c.Faults = append(c.Faults, &simdisk.Fault{Kind: "err", Op: []string{simdisk.OpWrite, simdisk.OpSync, simdisk.OpCreate}[r.intn(3)], FT: int(storage.TypeTable), Nth: r.rng(1, 6), Count: r.rng(1, 8), Epoch: -1})
+			}
+			if c.Knobs.WriteBuffer > 4096 {
+				c.Knobs.WriteBuffer = r.pick(512, 1024, 4096)
+			}
+		}
 	}
 	return c
 }
